@@ -6,6 +6,7 @@ import (
 	"math/rand"
 	"sort"
 	"strings"
+	"sync/atomic"
 
 	u "github.com/utreexo/utreexo"
 
@@ -290,8 +291,80 @@ func proofStr(p u.Proof) string {
 	return fmt.Sprintf("targets=%v proof=%s", p.Targets, hashesStr(p.Proof))
 }
 
-func cloneHashes(x []Hash) []Hash  { return append([]Hash(nil), x...) }
-func cloneU64(x []uint64) []uint64 { return append([]uint64(nil), x...) }
+// Argument representation (round 10).  Every slice the harness hands to the library goes
+// through cloneHashes / cloneU64.  Which Go value represents "these elements" is the caller's
+// business and must not matter to the library, so it is varied per case (a function of the
+// case index, hence reproduced by replays):
+//
+//	0: the classic one - nil for an empty list, a tight copy otherwise;
+//	1: an empty list is a non-nil zero-length slice, and every copy is a window into a larger
+//	   array whose tail [len:cap] holds junk (a library that appends to an argument and later
+//	   reads or sorts "its" slice picks the junk up or tramples a neighbour);
+//	2: the two alternate call by call.
+var argRep atomic.Int32
+var argRepCtr atomic.Uint32
+
+var junkHash = func() (h Hash) {
+	for i := range h {
+		h[i] = 0xEE
+	}
+	return
+}()
+
+const junkU64 = 0xDEADBEEFDEADBEEF
+
+func argRepRoomy() bool {
+	switch argRep.Load() {
+	case 1:
+		return true
+	case 2:
+		return argRepCtr.Add(1)%2 == 0
+	}
+	return false
+}
+
+func cloneHashes(x []Hash) []Hash {
+	if !argRepRoomy() {
+		return append([]Hash(nil), x...)
+	}
+	spare := 1 + len(x)%3
+	out := make([]Hash, len(x), len(x)+spare)
+	copy(out, x)
+	tail := out[len(x):cap(out)]
+	for i := range tail {
+		tail[i] = junkHash
+	}
+	return out
+}
+
+func cloneU64(x []uint64) []uint64 {
+	if !argRepRoomy() {
+		return append([]uint64(nil), x...)
+	}
+	spare := 1 + len(x)%3
+	out := make([]uint64, len(x), len(x)+spare)
+	copy(out, x)
+	tail := out[len(x):cap(out)]
+	for i := range tail {
+		tail[i] = junkU64
+	}
+	return out
+}
+
+func init() {
+	core.PreCase = func(c *core.Ctx) {
+		switch c.Index % 5 {
+		case 3:
+			argRep.Store(1)
+			c.Count("cases_with_roomy_argument_slices", 1)
+		case 4:
+			argRep.Store(2)
+			c.Count("cases_with_alternating_argument_slices", 1)
+		default:
+			argRep.Store(0)
+		}
+	}
+}
 func cloneProof(p u.Proof) u.Proof {
 	return u.Proof{Targets: cloneU64(p.Targets), Proof: cloneHashes(p.Proof)}
 }
